@@ -85,8 +85,8 @@ PINNED = ("tc", "min_human_food_consumption")
 def run(index, rep, db=None):
     db = db or build_all(index)
     rep.note_analysed("optimizer_templates", len(db.templates))
-    scale(db, rep)
-    sign(db, rep)
+    rep.guard(scale, db, rep)
+    rep.guard(sign, db, rep)
     return db
 
 
